@@ -46,10 +46,11 @@ type wInput struct {
 	Ops        []wOp  `json:"ops"`
 	Procs      int    `json:"gomaxprocs"`
 	DelaySeed  uint64 `json:"delay_seed"`
-	MaxDelayUs int    `json:"max_delay_us"` // per underlying Write call: random delay in [0, max]
-	APIDelayUs int    `json:"api_delay_us"` // random delay before each API call
-	FaultAt    int    `json:"fault_at"`     // index of the first failing underlying Write (-1: none); all later calls fail too
-	Partial    bool   `json:"partial"`      // the failing call accepts part of the data before reporting the error
+	MaxDelayUs int    `json:"max_delay_us"`        // per underlying Write call: random delay in [0, max]
+	APIDelayUs int    `json:"api_delay_us"`        // random delay before each API call
+	FaultAt    int    `json:"fault_at"`            // index of the first failing underlying Write (-1: none); all later calls fail too
+	Partial    bool   `json:"partial"`             // the failing call accepts part of the data before reporting the error
+	Transient  bool   `json:"transient,omitempty"` // only the call FaultAt fails; the underlying writer would accept later calls (a correct writer makes none)
 	Bam        bool   `json:"bam"`
 	DataSeed   uint64 `json:"data_seed"`
 	ExtraLen   int    `json:"extra_len,omitempty"` // bytes of user Extra in the writer's gzip header: large values make writeBlock fail with ErrBlockOverflow
@@ -192,15 +193,16 @@ type uwCall struct {
 }
 
 type recWriter struct {
-	mu       sync.Mutex
-	events   []string // raw event log; U-events are "U#<call index>" and labelled later
-	calls    []*uwCall
-	offered  int
-	delays   *Rand
-	maxDelay int
-	faultAt  int
-	partial  bool
-	inCall   int32
+	mu        sync.Mutex
+	events    []string // raw event log; U-events are "U#<call index>" and labelled later
+	calls     []*uwCall
+	offered   int
+	delays    *Rand
+	maxDelay  int
+	faultAt   int
+	partial   bool
+	transient bool
+	inCall    int32
 }
 
 var errInjected = errors.New("verif: injected write fault")
@@ -225,7 +227,7 @@ func (w *recWriter) Write(p []byte) (int, error) {
 	w.mu.Lock()
 	defer w.mu.Unlock()
 	c.offered = w.offered
-	if w.faultAt >= 0 && idx >= w.faultAt {
+	if w.faultAt >= 0 && (idx == w.faultAt || (idx > w.faultAt && !w.transient)) {
 		c.failed = true
 		if w.partial && len(p) > 1 {
 			c.n = len(p) / 2
@@ -488,7 +490,7 @@ func wRunScript(in wInput) *wRun {
 		}
 	}
 	r.data = wData(in.DataSeed, total)
-	r.rw = &recWriter{delays: &Rand{in.DelaySeed}, maxDelay: in.MaxDelayUs, faultAt: in.FaultAt, partial: in.Partial}
+	r.rw = &recWriter{delays: &Rand{in.DelaySeed}, maxDelay: in.MaxDelayUs, faultAt: in.FaultAt, partial: in.Partial, transient: in.Transient}
 	apiDelays := &Rand{in.DelaySeed ^ 0xabcdef}
 	old := runtime.GOMAXPROCS(in.Procs)
 	defer runtime.GOMAXPROCS(old)
@@ -858,7 +860,7 @@ func wRunBam(in wInput) *wRun {
 	var recEnds []int
 	var rerr error
 	r.data, r.headerLen, recEnds, rerr = wBamReference(in)
-	r.rw = &recWriter{delays: &Rand{in.DelaySeed}, maxDelay: in.MaxDelayUs, faultAt: in.FaultAt, partial: in.Partial}
+	r.rw = &recWriter{delays: &Rand{in.DelaySeed}, maxDelay: in.MaxDelayUs, faultAt: in.FaultAt, partial: in.Partial, transient: in.Transient}
 	if rerr != nil {
 		// the fault-free sequential run (wc=1, in-memory writer) of this script does not decode: blocks lost or reordered
 		r.fail("writer.sequential-run.corrupt", "bam script, wc=1, no faults, no delays: the output does not decode into the records written: %v", rerr)
@@ -1361,7 +1363,7 @@ func wHist(res *Result, in wInput, r *wRun) {
 
 func checkC12(c *ctx) {
 	res := c.res
-	res.Rule = "one case = one writer script (bgzf: Write sizes biased to 0, 1, small, BlockSize-1/BlockSize/BlockSize+1, 2*BlockSize±1, Flush/Wait interleavings, with and without Close, calls after Close; bam: NewWriter + record writes + Close) x wc in 0..5 x GOMAXPROCS in {1,2,16} x random per-call delay of the underlying writer (0..2ms) x random delays between API calls; no faults. Non-trivial = at least 2 blocks delivered and at least one Flush, Wait or Close; distinct by (wc, script shape, gomaxprocs, delay class). Oracle on the implementation: after every underlying Write that returned, the delivered bytes are whole BGZF members (own framing parser, CRC32/ISIZE verified) decoding to a prefix of the data handed to the writer so far; Flush+Wait==nil => everything written before the Flush is delivered; Close==nil => everything plus the EOF marker; bam.NewWriter==nil => the header is delivered. Correspondence: the observed trace of API call/return and underlying Write events must be a path of the Lean LTS (c12.trace)."
+	res.Rule = "one case = one writer script (bgzf: Write sizes biased to 0, 1, small, BlockSize-1/BlockSize/BlockSize+1, 2*BlockSize±1, Flush/Wait interleavings, with and without Close, calls after Close; bam: NewWriter + record writes + Close) x wc in 0..5 x GOMAXPROCS in {1,2,16} x random per-call delay of the underlying writer (0..2ms) x random delays between API calls; one case in eight has ONE underlying Write fail (with or without partial data) while later calls would be accepted. Non-trivial = at least 2 blocks delivered and at least one Flush, Wait or Close; distinct by (wc, script shape, gomaxprocs, delay class). Oracle on the implementation: after every underlying Write that returned, the delivered bytes are whole BGZF members (own framing parser, CRC32/ISIZE verified) decoding to a prefix of the data handed to the writer so far; Flush+Wait==nil => everything written before the Flush is delivered; Close==nil => everything plus the EOF marker; bam.NewWriter==nil => the header is delivered. Correspondence: the observed trace of API call/return and underlying Write events must be a path of the Lean LTS (c12.trace)."
 	if runInChild(c, "C12") {
 		return
 	}
@@ -1392,6 +1394,15 @@ func checkC12(c *ctx) {
 			break
 		}
 		in := wGenInput(c.rnd, true)
+		if c.rnd.coin(1, 8) {
+			// one underlying Write fails and the underlying writer would accept later ones: whatever the writer
+			// still delivers must keep the delivered bytes a prefix of whole blocks (it must deliver nothing)
+			in = wGenFaultInput(c.rnd)
+			in.ExtraLen, in.BadName, in.Transient = 0, false, true
+			if in.FaultAt < 0 {
+				in.FaultAt = 0
+			}
+		}
 		noteCase(in)
 		r := wRunScript(in)
 		wJudge(c, r, d, &impl, &ins)
